@@ -30,16 +30,17 @@ type Profile struct {
 }
 
 type Gen struct {
-	rng   *rand.Rand
-	p     Profile
-	root  *gobj
-	live  []*gobj
-	dead  []*gobj
-	next  int
-	wtmax uint64
-	maxfs uint64
-	nmax  uint64
-	pend  *pending
+	rng          *rand.Rand
+	p            Profile
+	root         *gobj
+	live         []*gobj
+	dead         []*gobj
+	next         int
+	wtmax        uint64
+	maxfs        uint64
+	nmax         uint64
+	pend         *pending
+	unstableFile *gobj // a file with acknowledged unstable data not yet committed
 }
 
 type pending struct {
@@ -353,6 +354,7 @@ func (g *Gen) try(k string) (Op, bool) {
 			return o, false
 		}
 		o = Op{Proc: "commit", H: f.sym, Off: 0, Cnt: 0}
+		g.pend = &pending{target: f}
 		if g.rng.Intn(4) == 0 {
 			o.Off = g.offset(f)
 			o.Cnt = g.length()
@@ -391,6 +393,15 @@ func (g *Gen) try(k string) (Op, bool) {
 			o = Op{Proc: p, H: x.sym, Name: "f0"}
 		}
 	case "restart":
+		if g.unstableFile != nil && !g.unstableFile.dead {
+			// unstable data may legitimately be lost by a restart: make it durable first
+			o = Op{Proc: "commit", H: g.unstableFile.sym}
+			g.pend = &pending{target: g.unstableFile}
+			break
+		}
+		if g.unstableFile != nil {
+			return o, false
+		}
 		o = Op{Proc: "restart"}
 	case "unsupported":
 		o = Op{Proc: []string{"mknod", "link", "fsstat"}[g.rng.Intn(3)], H: "root"}
@@ -463,9 +474,14 @@ func (g *Gen) Observe(o Op, r Reply) {
 		p.parent.kids[o.Name] = n
 		g.live = append(g.live, n)
 	case "write":
-		if o.Off+o.Cnt > p.target.size {
+		if o.Off+o.Cnt > p.target.size && o.Cnt > 0 {
 			p.target.size = o.Off + o.Cnt
 		}
+		if r.Kind == "written" && r.Committed == 0 {
+			g.unstableFile = p.target
+		}
+	case "commit":
+		g.unstableFile = nil
 	case "setattr":
 		if o.HasSize {
 			p.target.size = o.Size
